@@ -68,7 +68,7 @@ def canon_spec(o):
         if not m:
             out.append(part)
             continue
-        res = runcorr.FUN_RE.sub("fn", m.group(1))
+        res = runcorr.canon_graph(runcorr.FUN_RE.sub("fn", m.group(1)))
         out.append("%s OUT %s" % (res, m.group(2)))
     return "".join(x + " ;; " for x in out)
 
